@@ -479,9 +479,16 @@ def gen_custom(rnd, accs, idx):
         kinds[rnd.randrange(nstages)] = 'custom'
     wait = rnd.choice((0x0020, 0x0030, 0x0040))
     scale = rnd.choice((1.0, 1.0, 0.93, 1.08))
+    lens = [rnd.choice((1, 2, 17, 40, 90, 150)) for _ in kinds]
+    stack = rnd.choice((0, 0x7F00, 0x6000))
+    if (idx is not None and idx % 3 == 1) or rnd.random() < 0.15:
+        # last stage: a ROM LD-BYTES call that loads a block over its own return stack (the words at SP-2.. come from the tape)
+        kinds = kinds[:2] + ['romstack']
+        lens = lens[:2] + [rnd.choice((4, 5, 6, 20, 60))]
+        stack = rnd.choice((0x7F00, 0x6000, 0x7E40))
     return dict(acc=acc['name'], dly=dly, decjp=int(decjp), org=org, kinds=kinds, wait=wait, scale=scale,
-                lens=[rnd.choice((1, 2, 17, 40, 90, 150)) for _ in kinds], flags=[rnd.choice((0xFF, 0xAA, 0x81, 0xD3)) for _ in kinds],
-                stack=rnd.choice((0, 0x7F00, 0x6000)), tail=rnd.random() < 0.3)
+                lens=lens, flags=[rnd.choice((0xFF, 0xAA, 0x81, 0xD3)) for _ in kinds],
+                stack=stack, tail=rnd.random() < 0.3)
 
 
 def build_custom(rom, accs, g, rnd):
@@ -496,14 +503,25 @@ def build_custom(rom, accs, g, rnd):
     dest = fin + 16
     stages, blocks, loads = [], [], []
     tm = loader_timings(acc, g['dly'], g['scale'])
+    trap = fin + 1
     for kind, ln, flag in zip(g['kinds'], g['lens'], g['flags']):
         data = [rnd.randrange(256) for _ in range(ln)]
+        if kind == 'romstack':
+            # CALL LD-BYTES leaves SP = stack-2; the ROM pushes SA/LD-RET at stack-4: the block starts exactly there, so the
+            # routine returns through the first word of the block (FIN = --start); the second word replaces the caller's
+            # return address (TRAP: JP FIN); everything the real routine pushes while loading lies below the block
+            at = g['stack'] - 4
+            data[0:4] = [fin % 256, fin // 256, trap % 256, trap // 256]
+            stages.append((at, ln, flag, ROM_LD_BYTES))
+            blocks.append((kind, flag, data, tm))
+            loads.append((at, data))
+            continue
         stages.append((dest, ln, flag, ROM_LD_BYTES if kind == 'rom' else lorg))
         blocks.append((kind, flag, data, tm))
         loads.append((dest, data))
         dest += ln + rnd.choice((0, 3))
-    prog = bytes(stage_code(stages, fin)) + loader + bytes((0x00,))
-    if len(prog) != fin - org + 1:
+    prog = bytes(stage_code(stages, fin)) + loader + bytes((0x00, 0xC3, fin % 256, fin // 256))
+    if len(prog) != fin - org + 4:
         raise MachineryError('custom program layout')
     return prog, org, fin, blocks, loads
 
@@ -534,8 +552,8 @@ def write_custom_tape(wd, tag, prog, org, fin, blocks, g, fmt='tzx'):
     for k, (kind, flag, data, tm) in enumerate(blocks):
         payload = bytes([flag] + data + [parity(flag, data)])
         last = k == len(blocks) - 1
-        pause = 0 if last and not g['tail'] else (1000 if kind == 'rom' else 400)
-        if kind == 'rom':
+        pause = 0 if last and not g['tail'] else (1000 if kind != 'custom' else 400)
+        if kind != 'custom':
             out += tapedrv.tzx10(payload, pause)
         else:
             # enough pilot for the shortened wait plus the 256 leader pairs the loader wants to see
@@ -741,7 +759,7 @@ def custom_worker(args):
         prog, org, fin, blocks, loads = build_custom(rom, accs, g, rnd)
         tag = 'c%d' % idx
         tape = write_custom_tape(sub, tag, prog, org, fin, blocks, g)
-        names = g['acc'] + (',rom' if 'rom' in g['kinds'] else '')
+        names = g['acc'] + (',rom' if set(g['kinds']) & {'rom', 'romstack'} else '')
         cfgs = matrix(rnd, names, tier, True, full, pyfl0=idx % 8 == 0)
         t0 = time.time()
         runs, dropped = run_matrix(tape, fin, cfgs, loads, sub, tag)
